@@ -470,7 +470,7 @@ def run(sc: Dict[str, Any], cache: Optional[Dict[str, Any]] = None) -> Dict[str,
         return {"prop": sc.get("prop", "C02"), "arch": norm_arch(sc["arch"]), "cfg": sc["cfg"], "build_ok": False,
                 "build_err": B["err"], "L": [], "metrics": [], "cost": {}, "cost_ok": {}, "probe": False, "conflict": False,
                 "export_done": False, "export_ok": False, "export_err": "", "bit_identical": False, "y_varies": False,
-                "maxdiff_e6": 0, "mode": sc.get("mode", "eval"), "hist": [], "hist_err": "", "cost2": {}, "cost2_ok": {}, "cost_rep": {}, "cost2_rep": {}, "frame_changed": "", "frame_keys": 0, "fresh_model": True, "exports": [], "batch": int(sc.get("batch", 0)),
+                "maxdiff_e6": 0, "mode": sc.get("mode", "eval"), "hist": [], "hist_err": "", "hist_err_pos": 0, "hist_err_act": "", "hist_err_type": "", "cost2": {}, "cost2_ok": {}, "cost_rep": {}, "cost2_rep": {}, "frame_changed": "", "frame_keys": 0, "fresh_model": True, "exports": [], "batch": int(sc.get("batch", 0)),
                 "full": bool(sc.get("full", False))}
     m, recs, arch, probe = B["m"], B["recs"], B["arch"], B["probe"]
     rng = random.Random(sc.get("seed", 0) * 7919 + 13)
@@ -685,7 +685,14 @@ def run(sc: Dict[str, Any], cache: Optional[Dict[str, Any]] = None) -> Dict[str,
             raise
         except Exception as e:          # a public call of the history raised: reported by the trace spec
             hist_err = f"{act}: {type(e).__name__}: {e}"[:200]
+            t["hist_err_pos"] = len(t.get("_done", [])) + 1
+            t["hist_err_act"], t["hist_err_type"] = act, type(e).__name__
             break
+        t.setdefault("_done", []).append(act)
+    t.pop("_done", None)
+    t.setdefault("hist_err_pos", 0)
+    t.setdefault("hist_err_act", "")
+    t.setdefault("hist_err_type", "")
     t["hist_err"] = hist_err
     # ---- costs (in the state the history left) read in the given order, then again in the reverse order
     def read(names):
@@ -1124,6 +1131,28 @@ def _options(pid: str, cfg: Dict[str, Any], rng: random.Random, dim: int = 2, p_
     return o
 
 
+GRAD_THETA = ("fwd_g", "sgd_net", "sgd_all")
+NOGRAD_THETA = ("fwd_n", "fwd_eval", "fwd_hard", "fwd_ghard", "export!")
+
+
+def gate_forks(hist, allow: bool):
+    """Finding F70: deepcopy of an MPS model raises when the theta_alpha buffers were produced by a forward pass with autograd
+    enabled.  While F70 is not listed such forks are not generated (the call is replaced by summary); generation-side only -
+    the verdict (signature MPSLifeTrace!ForkAfterGrad) is TLC's."""
+    if hist is None or allow:
+        return hist, 0
+    out, last, n = [], None, 0
+    for a in hist:
+        if a == "fork" and last in GRAD_THETA:
+            out.append("summary")
+            n += 1
+            continue
+        if a in GRAD_THETA or a in NOGRAD_THETA:
+            last = a
+        out.append(a)
+    return out, n
+
+
 def _nontrivial(tr) -> bool:
     """Some quantiser's winner differs from the initial arg-max (the largest precision of its tuple)."""
     for r in tr["L"]:
@@ -1339,6 +1368,14 @@ def run_check(pid: str, tier: str, seed: int, replay: Optional[str], plan: Dict[
         else:
             skipped_gated["full_cost with fixed layers"] = {"needs_open_finding": "F65", "scenarios_not_run": len(fam)}
     R.extra["not_replayed_unlisted_findings"] = skipped_gated
+    n_gated_forks = 0
+    for sc in scs:
+        if sc.get("hist") is not None:
+            sc["hist"], k_ = gate_forks(sc["hist"], "F70" in R.known_open)
+            n_gated_forks += k_
+    if n_gated_forks:
+        R.extra.setdefault("not_replayed_unlisted_findings", {})["fork after a forward pass with autograd"] = {
+            "needs_open_finding": "F70", "fork_calls_replaced_by_summary": n_gated_forks}
     traces = run_scenarios(scs, procs=procs)
     for sc, tr in zip(scs, traces):
         sc["_nt"] = _nontrivial(tr) and (pid != "C02" or tr["y_varies"])
